@@ -28,6 +28,9 @@ CONFIG = {'assumptions': [
     'gc): the outcome of that activity is not observed, the parses after it are; after a history that changed the answers '
     'of parsers it never touched, the remaining histories of the run are skipped (they would not replay). Thread '
     'schedules are outside the property',
+    'the expression is handed to parse_expr in every form bytes(expr) accepts and the unchanged code answers correctly for: '
+    'list (docstring), tuple, bytes, bytearray, memoryview, iter(list), generator, map, itertools.chain - chosen by a hash of '
+    'the case (so a replay uses the same form; it is shown in the replay\'s detail)',
     'other malformed inputs (truncated fixed-size / LEB128 / typed operands, DW_OP_WASM_location tags > 3) are outside '
     'the property (model vs implementation only)']}
 LEVEL = {'text': 'Machine-checked theorem: for every configuration, every list of well-formed operations of the DWARF 2-5 + '
@@ -601,9 +604,46 @@ def _verdict(r):
     return ['rejected'] if isinstance(r, (list, tuple)) and r and r[0] == 'err' else r
 
 
-def _impl(parsers, cfg, data):
+# how the expression is handed to parse_expr: everything bytes(expr) accepts (the docstring's list of integers, the
+# bytes-like objects, and one-shot iterables).  The form is a function of the case, so a replay passes it the same way.
+FORMS = ('list', 'list', 'list', 'tuple', 'bytes', 'bytearray', 'memoryview', 'iter', 'generator', 'map', 'chain')
+
+
+def form_of(abstract):
+    import json
+    import zlib
+    from tools.lib import sx
+    # hashed in the JSON form a replay file holds, so that the replayed case gets the same form
+    return FORMS[zlib.crc32(json.dumps(sx.jsonable(abstract), sort_keys=True, default=str).encode()) % len(FORMS)]
+
+
+def _as_form(data, form):
+    import itertools
+    data = bytes(data)
+    if form == 'list':
+        return list(data)
+    if form == 'tuple':
+        return tuple(data)
+    if form == 'bytes':
+        return data
+    if form == 'bytearray':
+        return bytearray(data)
+    if form == 'memoryview':
+        return memoryview(data)
+    if form == 'iter':
+        return iter(list(data))
+    if form == 'generator':
+        return (b for b in data)
+    if form == 'map':
+        return map(int, data)
+    if form == 'chain':
+        return itertools.chain(data[:len(data) // 2], list(data[len(data) // 2:]))
+    raise ValueError(form)
+
+
+def _impl(parsers, cfg, data, form='list'):
     p = parsers[(int(cfg[0]), cfg[1], cfg[2])]
-    return impl_call(lambda: ['ok', _conv_ops(p.parse_expr(list(data)))])
+    return impl_call(lambda: ['ok', _conv_ops(p.parse_expr(_as_form(data, form)))])
 
 
 def _blame(ctx, parsers, table, cfg, ops, impl=None):
@@ -678,18 +718,24 @@ def evaluate(ctx, cases):
             ops = a[1]
             if not wf:
                 raise RuntimeError('C12 generator produced a case outside the Coq wf domain: %r' % (a,))
-            impl = _impl(parsers, cfg, data)
+            form = form_of(a)
+            ctx.bump('expr_passed_as', form)
+            impl = _impl(parsers, cfg, data, form)
             spec = _norm(expected)
             model = _norm(model)
             key = None
             if impl != spec:
-                key = _blame(ctx, parsers, table, cfg, ops, impl)
+                if form != 'list' and _impl(parsers, cfg, data) == spec:
+                    key = 'expr-passed-as-%s' % form          # right for a list, wrong for this form of the same bytes
+                else:
+                    key = _blame(ctx, parsers, table, cfg, ops, impl)
             n = count_ops(ops)
             ctx.bump('ops_per_expr', n if n < 3 else '3-9' if n < 10 else '10-99' if n < 100 else '100+')
             ctx.bump('nesting_depth', depth_of(ops))
             ctx.bump('bytes', len(data) if len(data) < 2 else '2-15' if len(data) < 16 else '16-255' if len(data) < 256 else '256+')
             ctx.record('ops', a, impl=impl, spec=spec, model=model, in_domain=True,
-                       nontrivial=n >= 2 or any(o[0] == 'nest' or o[2] for o in ops), key=key)
+                       nontrivial=n >= 2 or any(o[0] == 'nest' or o[2] for o in ops), key=key,
+                       detail={'expr_passed_as': form})
             # re-encoding the expected parse gives the input back when every LEB128 is minimal (echo of C12_reencode)
             if canon:
                 ctx.bump('reencode_checked', 'canonical')
@@ -709,7 +755,9 @@ def evaluate(ctx, cases):
             if not wf:
                 raise RuntimeError('C12 generator produced an ill-formed case outside the Coq wf_bad domain: %r' % (a,))
             model = _norm(model)
-            impl = _impl(parsers, cfg, data)
+            form = form_of(a)
+            ctx.bump('expr_passed_as', form)
+            impl = _impl(parsers, cfg, data, form)
             ctx.bump('illformed', why)
             ctx.bump('illformed_depth', bad_depth(a[1]))
             # C12_illformed_rejected: refused, never reported as some sequence of operations
